@@ -234,6 +234,18 @@ def install_externals(reg):
         code = pos[0]
         glb = pos[1] if len(pos) > 1 else NONE
         loc = pos[2] if len(pos) > 2 else NONE
+        if isinstance(glb, PyDict) and isinstance(loc, PyNoneT):
+            # exec(code, ns): the code's own definitions and its imports share ONE namespace (a different function)
+            res = []
+            pr, pn = ex.split(p, mayraise("exec", code))
+            if pr is not None:
+                res.append((pr, Raise("ExecException", "exec() raised")))
+            if pn is not None:
+                old = pn.heap[glb.oid]["attrs"]["contents"]
+                pn.heap[glb.oid]["attrs"]["contents"] = uf("EXEC_AS_GLOBALS", code, old)
+                pn.effects.append(("call", "exec", [to_val(code)]))
+                res.append((pn, NONE))
+            return res
         if not isinstance(glb, PyNoneT) or not isinstance(loc, PyDict):
             raise OutOfSubset("exec() with globals given or without a locals dict")
         if p.heap[loc.oid]["origin"] != "fresh":
@@ -331,6 +343,23 @@ def install_externals(reg):
         p.facts.append(r >= 0)
         return [(p, r)]
     M[("builtins.str", "count")] = s_count
+
+    # any other pure str method: an uninterpreted function of (receiver, arguments)
+    def pure_str_method(name, sort):
+        def h(ex, p, pos, kw, node):
+            if kw:
+                raise OutOfSubset("str.%s with keywords" % name)
+            return [(p, uf("str." + name, *pos, sort=sort))]
+        return h
+    for nm in ("strip", "lstrip", "rstrip", "replace", "upper", "title", "casefold", "capitalize", "swapcase", "zfill",
+               "join", "format", "removeprefix", "removesuffix", "expandtabs", "center", "ljust", "rjust", "translate"):
+        M[("builtins.str", nm)] = pure_str_method(nm, S)
+    for nm in ("split", "rsplit", "splitlines", "partition", "rpartition"):
+        M[("builtins.str", nm)] = pure_str_method(nm, Val)
+    for nm in ("startswith", "endswith", "isdigit", "isalpha", "isalnum", "isspace", "isascii", "isidentifier", "islower", "isupper"):
+        M[("builtins.str", nm)] = pure_str_method(nm, B)
+    for nm in ("find", "rfind"):
+        M[("builtins.str", nm)] = pure_str_method(nm, I)
 
     # ------------------------------------------------------------------ hashlib
     def make_hash(name, hexfn, hexlen):
